@@ -2505,15 +2505,13 @@ refill(struct evrrul_s *restrict strm)
 	for (size_t i = 0U; i < strm->ncch; i++) {
 		strm->cch[i] = echs_instant_rescale(strm->cch[i], strm->cal);
 	}
-	/* utcify them all */
-	for (size_t i = 0U; i < strm->ncch; i++) {
-		int eof = echs_instant_tzof(strm->cch[i], strm->zon);
+	/* utcify them all, the fillers worked relative to the offset in
+	 * force at DTSTART, so get the wall-clock time back and convert that */
+	for (size_t i = 0U; strm->zon && i < strm->ncch; i++) {
+		const echs_instant_t loc =
+			echs_tzob_shift(strm->cch[i], 0, strm->pof);
 
-		if (UNLIKELY(eof != strm->pof)) {
-			/* discrepancy, convert defo */
-			strm->cch[i] = echs_tzob_shift(
-				strm->cch[i], eof, strm->pof);
-		}
+		strm->cch[i] = echs_instant_utc(loc, strm->zon);
 	}
 	/* otherwise sort the array, just in case */
 	echs_instant_sort(strm->cch, strm->ncch);
